@@ -349,3 +349,175 @@ Section CoverRatio.
         split; [rewrite Hfst, Hsnd; cbn; lia|]. split; [lia|].
         exists x, []. rewrite Hsnd. repeat split; [lia|constructor|exact Hxt].
   Qed.
+
+  (** an open bin receives the smallest remaining item *)
+  Lemma step_rest C f : 0 < C -> phase1_at C f -> forall bs cur r y,
+    desc (r ++ [y]) -> posl (r ++ [y]) -> run_shape C false cur (r ++ [y]) ->
+    good_run C bs (snd cur ++ r ++ [y])
+      (if fst (add1 y cur) >=? C
+       then tt_loop valueof true f C (bs ++ [add1 y cur], empty_bin) true r
+       else tt_loop valueof true f C (bs, add1 y cur) false r).
+  Proof.
+    intros HC Hrec bs cur r y Hs Hp (Hw & Hlt & x & pre & Hcur & Hx & Hpre & Hle).
+    destruct (sorted_snoc r y Hs) as [Hsr Hyr].
+    apply Forall_app in Hp. destruct Hp as [Hpr Hpy].
+    inversion Hpy as [|y0 t0 Hy _]; subst y0 t0.
+    apply Forall_app in Hle. destruct Hle as [Hler Hley].
+    inversion Hley as [|y0 t0 Hyx _]; subst y0 t0.
+    destruct (wsum_small C C pre Hpre) as [Hpre0 _].
+    assert (Hsnd : snd (add1 y cur) = x :: pre ++ [y]).
+    { cbn [add_to_bin snd]. rewrite Hcur. reflexivity. }
+    assert (Hfst : fst (add1 y cur) = valueof x + vsum pre + valueof y).
+    { cbn [add_to_bin fst]. rewrite Hw, Hcur, vsum_cons. lia. }
+    rewrite Hw, Hcur, vsum_cons in Hlt.
+    destruct (fst (add1 y cur) >=? C) eqn:E.
+    - destruct (2 * valueof y <? C) eqn:Ey.
+      + (* closed by a small item *)
+        apply (good_run_cons C bs (add1 y cur) (snd (@empty_bin A) ++ r)).
+        * cbn [empty_bin snd app]. intros a Ha. apply in_or_app. right.
+          apply in_or_app. left. exact Ha.
+        * intros D (HD & HDC & HDx). rewrite Hsnd.
+          apply small_close_weight; try assumption; [split; lia|].
+          destruct HDx as [HDx|(a & Ha & Ha1 & Ha2 & HDa)]; [left; exact HDx|right].
+          cbn [empty_bin snd app] in Ha. rewrite Forall_forall in Hler.
+          specialize (Hler a Ha). cbv beta in Hler. lia.
+        * apply Hrec; [exact Hsr|exact Hpr|apply shape_empty; exact HC].
+      + (* closed by an item >= C/2: from now on pairs *)
+        destruct (tt_pairs C (valueof x) ltac:(lia) f (bs ++ [add1 y cur]) empty_bin true r)
+          as (new & H1 & H2 & H3).
+        * rewrite Forall_forall in Hler, Hyr |- *. intros a Ha.
+          specialize (Hler a Ha). specialize (Hyr a Ha). cbv beta in Hler, Hyr.
+          unfold midp. lia.
+        * reflexivity.
+        * exists (add1 y cur :: new), (2 * (C - valueof x)).
+          split; [transitivity ((bs ++ [add1 y cur]) ++ new);
+                  [exact H1|rewrite <- app_assoc; reflexivity]|].
+          split; [|split; [constructor; [|exact H2]|exact H3]].
+          -- unfold Dok. split; [lia|]. split; [lia|]. right. exists x.
+             split; [rewrite Hcur; left; reflexivity|]. lia.
+          -- rewrite Hsnd. apply transition_weight; try assumption; lia.
+    - apply (good_run_incl C bs (snd (add1 y cur) ++ r)).
+      + rewrite Hsnd, Hcur. intros a Ha. cbn [app] in Ha |- *.
+        destruct Ha as [Ha|Ha]; [left; exact Ha|right].
+        rewrite <- app_assoc in Ha. apply in_app_or in Ha. apply in_or_app.
+        destruct Ha as [Ha|Ha]; [left; exact Ha|right].
+        apply in_app_or in Ha. apply in_or_app. destruct Ha as [Ha|Ha]; [right|left]; exact Ha.
+      + apply Hrec; [exact Hsr|exact Hpr|]. unfold run_shape.
+        split; [rewrite Hfst, Hsnd, vsum_cons, vsum_app; cbn; lia|]. split; [lia|].
+        exists x, (pre ++ [y]). rewrite Hsnd. split; [reflexivity|]. split; [exact Hx|].
+        split; [|exact Hler]. apply Forall_app. split; [exact Hpre|].
+        constructor; [|constructor]. split; lia.
+  Qed.
+
+  Lemma phase1 C : 0 < C -> forall f, phase1_at C f.
+  Proof.
+    intros HC. induction f as [|f IH]; intros bs cur fresh rem Hs Hp Hsh.
+    - cbn [tt_loop]. eapply run_stop; eassumption.
+    - destruct rem as [|x t]; [cbn [tt_loop]; eapply run_stop; eassumption|].
+      destruct fresh; [apply step_fresh; assumption|].
+      cbn [tt_loop]. destruct (unsnoc (x :: t)) as [[r y]|] eqn:U;
+        [|apply unsnoc_None in U; discriminate].
+      apply unsnoc_Some in U. rewrite U in Hs, Hp, Hsh |- *. cbv zeta. cbn [fst snd].
+      apply step_rest; assumption.
+  Qed.
+
+  (** ---- the whole run: some parameter D accounts for every closed bin ---- *)
+  Lemma tt_weights C items : 0 < C -> Forall (fun a => 0 < valueof a) items ->
+    exists D rest, 0 < D /\ D <= C /\
+      Permutation (contents (cover_twothirds valueof true C items) ++ rest) items /\
+      Forall (fun b => wsum C D (snd b) <= 3 * D) (cover_twothirds valueof true C items) /\
+      wsum C D rest < 2 * D.
+  Proof.
+    intros HC Hpos. unfold cover_twothirds.
+    set (st := tt_loop valueof true (length items) C ([], empty_bin) true (sort_desc valueof items)).
+    assert (Hinv : cinv valueof C items st []).
+    { subst st. apply tt_loop_inv; [exact HC| |rewrite sort_desc_length; lia].
+      apply cinv_init; [exact HC|apply sort_desc_perm]. }
+    destruct Hinv as (_ & _ & _ & _ & HP). rewrite app_nil_r in HP.
+    assert (Hrun : good_run C [] (snd (@empty_bin A) ++ sort_desc valueof items) st).
+    { subst st. apply phase1; [exact HC|apply sort_desc_sorted| |apply shape_empty; exact HC].
+      eapply Permutation_Forall; [symmetry; apply sort_desc_perm|exact Hpos]. }
+    destruct Hrun as (new & D & H1 & (HD & HDC & _) & H3 & H4). cbn [app] in H1.
+    exists D, (snd (snd st)). rewrite H1. repeat split; try assumption.
+    rewrite <- H1. exact HP.
+  Qed.
+
+  Lemma wsum_contents C D (b : bins A) :
+    Forall (fun bn => wsum C D (snd bn) <= 3 * D) b ->
+    wsum C D (contents b) <= 3 * D * Z.of_nat (length b).
+  Proof.
+    induction 1 as [|c t Hc Ht IH].
+    - cbn. lia.
+    - change (contents (c :: t)) with (snd c ++ contents t). rewrite wsum_app.
+      cbn [length]. rewrite Nat2Z.inj_succ. lia.
+  Qed.
+
+  (** C10: twothirds fills at least 2/3 of (OPT - 1) bins.
+      In fact 2 * OPT <= 3 * bins + 1. *)
+  Theorem twothirds_ratio_strong : forall C items n, 0 < C ->
+    Forall (fun x => 0 < valueof x) items -> MaxCover C (map valueof items) n ->
+    (2 * n <= 3 * length (cover_twothirds valueof true C items) + 1)%nat.
+  Proof.
+    intros C items n HC Hpos [Hcov _].
+    destruct (tt_weights C items HC Hpos) as (D & rest & HD & HDC & HP & Hb & Hr).
+    assert (Hopt : Z.of_nat n * (2 * D) <= wsum C D items).
+    { unfold wsum. rewrite <- (map_map valueof (W C D)).
+      apply cover_weight_bound; try assumption.
+      rewrite Forall_map. eapply Forall_impl; [|exact Hpos]. cbv beta. intros x Hx. lia. }
+    rewrite <- (wsum_perm C D _ _ HP), wsum_app in Hopt.
+    pose proof (wsum_contents C D _ Hb) as Hc.
+    set (m := length (cover_twothirds valueof true C items)) in *.
+    assert (Hlt : (2 * Z.of_nat n) * D < (3 * Z.of_nat m + 2) * D) by lia.
+    apply Z.mul_lt_mono_pos_r in Hlt; [lia|exact HD].
+  Qed.
+
+  Theorem twothirds_ratio : forall C items n, 0 < C ->
+    Forall (fun x => 0 < valueof x) items -> MaxCover C (map valueof items) n ->
+    (2 * (n - 1) <= 3 * length (cover_twothirds valueof true C items))%nat.
+  Proof.
+    intros C items n HC Hpos Hmax.
+    pose proof (twothirds_ratio_strong C items n HC Hpos Hmax). lia.
+  Qed.
+End CoverRatio.
+
+(** ---- the guarantee against the executable oracle, and examples ---- *)
+From Prtpy Require Import Oracle.Reach Proofs.OracleSpec.
+
+Corollary twothirds_ratio_oracle : forall C vs, 0 < C -> Forall (fun v => 0 < v) vs ->
+  (2 * (max_cover C vs - 1) <= 3 * length (cover_twothirds idz true C vs))%nat.
+Proof.
+  intros C vs HC Hpos. apply (twothirds_ratio idz C vs (max_cover C vs) HC Hpos).
+  change (map idz vs) with (map (fun v : Z => v) vs). rewrite map_id.
+  apply max_cover_spec; assumption.
+Qed.
+
+(** the strong form 2 * OPT <= 3 * bins + 1 is attained: OPT = 2 ([5;5;2] twice), one bin filled *)
+Example twothirds_ratio_tight :
+  max_cover 12 [5; 5; 5; 5; 2; 2] = 2%nat /\
+  cover_twothirds idz true 12 [5; 5; 5; 5; 2; 2] = [(14, [5; 2; 2; 5])].
+Proof. vm_compute. split; reflexivity. Qed.
+
+(** small items only: OPT = 3 ([9;9;1;1] three times), two bins filled *)
+Example twothirds_ratio_small :
+  max_cover 20 [9; 9; 9; 9; 9; 9; 1; 1; 1; 1; 1; 1] = 3%nat /\
+  cover_twothirds idz true 20 [9; 9; 9; 9; 9; 9; 1; 1; 1; 1; 1; 1] =
+    [(24, [9; 1; 1; 1; 1; 1; 1; 9]); (27, [9; 9; 9])].
+Proof. vm_compute. split; reflexivity. Qed.
+
+(** a run of the second kind (the second bin is closed by 10 >= C/2 taken from the small end,
+    so the analysis uses D = 2 * (20 - 12) = 16) *)
+Example twothirds_ratio_pairs :
+  max_cover 20 [13; 12; 11; 11; 10; 3; 3; 2] = 3%nat /\
+  cover_twothirds idz true 20 [13; 12; 11; 11; 10; 3; 3; 2] =
+    [(21, [13; 2; 3; 3]); (22, [12; 10]); (22, [11; 11])].
+Proof. vm_compute. split; reflexivity. Qed.
+
+(** the docstring instance (scaled by 1/10): twothirds fills 3 bins, which is optimal here *)
+Example twothirds_ratio_docstring :
+  let vs := [94; 49; 49; 49; 49; 49; 49; 1; 1; 1; 1; 1; 1] in
+  (max_cover 100 vs, length (cover_twothirds idz true 100 vs)) = (3%nat, 3%nat).
+Proof. vm_compute. reflexivity. Qed.
+
+Print Assumptions twothirds_ratio.
+Print Assumptions twothirds_ratio_strong.
+Print Assumptions twothirds_ratio_oracle.
